@@ -23,6 +23,8 @@ REPO = "/repo"
 ROOT = os.path.dirname(os.path.dirname(os.path.abspath(__file__)))
 PY = "/venv/bin/python"
 SEEDED = os.path.join(ROOT, "seeded")
+BENIGN = False      # --benign: the patches are behaviour-preserving refactorings: demo must PASS with the patch and
+                    # every check must stay at exit 0; kept under /verif/seeded_benign/
 
 
 def sh(cmd, cwd=None, timeout=900, env=None):
@@ -86,6 +88,8 @@ def evaluate(d, root, tier, props, do_import):
             sh(["git", "-C", wt, "reset", "-q"])
         rc, o = sh([PY, "-W", "ignore", demo], cwd=wt, env=env, timeout=300)
         row["demo_patched"] = "FAIL" if rc != 0 else "still-PASS"
+        if BENIGN:
+            row["demo_patched"] = "PASS" if rc == 0 else f"FAIL rc={rc}: {o.strip()[-200:]}"
         row["demo_output"] = o.strip()[-300:]
         rc, o = sh([PY, "-m", "pytest", "-q", "-p", "no:cacheprovider", "-x"], cwd=wt, env=env)
         row["tests"] = o.strip().splitlines()[-1][:60] if o.strip() else "?"
@@ -97,10 +101,11 @@ def evaluate(d, root, tier, props, do_import):
                 hits[p] = (f"exit{rc}:" + ",".join(rules)) if rc == 1 else "exit2:" + " ".join(
                     l for l in o.splitlines() if l.startswith("ANALYSIS"))[:160]
         row["detected_by"] = hits
-        confirmed = row["demo_clean"] == "PASS" and row["demo_patched"] == "FAIL" and "115 passed" in row["tests"]
+        confirmed = row["demo_clean"] == "PASS" and row["demo_patched"] == ("PASS" if BENIGN else "FAIL") \
+            and "115 passed" in row["tests"]
         row["confirmed"] = confirmed
         if do_import and confirmed:
-            dest = os.path.join(SEEDED, sid)
+            dest = os.path.join(SEEDED + ("_benign" if BENIGN else ""), sid)
             os.makedirs(dest, exist_ok=True)
             rc, diff = sh(["git", "-C", wt, "diff"])
             with open(os.path.join(dest, "patch.diff"), "w") as f:
@@ -118,13 +123,15 @@ def evaluate(d, root, tier, props, do_import):
             meta.update({
                 "id": sid,
                 "property": row["property"],
+                "kind": "behaviour-preserving refactoring (every check must stay silent)" if BENIGN else "regression",
                 "origin": "independent sub-agent given only the property text and a scratch worktree",
                 "needs_to_manifest": meta.get("needs_to_manifest") or _needs(notes),
                 "confirmed_at_repo_head": head,
                 "ran": [
                     f"demo.py on clean worktree of {head}: PASS (exit 0)",
-                    "git apply patch.diff; demo.py: FAIL (exit != 0): " + row["demo_output"].splitlines()[-1][:160]
-                    if row["demo_output"] else "git apply patch.diff; demo.py: FAIL",
+                    ("git apply patch.diff; demo.py: PASS (exit 0)" if BENIGN else
+                     "git apply patch.diff; demo.py: FAIL (exit != 0): " + row["demo_output"].splitlines()[-1][:160]
+                     if row["demo_output"] else "git apply patch.diff; demo.py: FAIL"),
                     "pytest -q -p no:cacheprovider (patched): " + row["tests"],
                     f"every claimed check, tier {tier}, --repo <patched worktree>",
                 ],
@@ -152,7 +159,8 @@ def main():
     tier = "quick"
     jobs = 8
     do_import = "--import" in argv
-    global PREFIX
+    global PREFIX, BENIGN
+    BENIGN = "--benign" in argv
     if "--prefix" in argv:
         PREFIX = argv[argv.index("--prefix") + 1]
     if "--tier" in argv:
@@ -174,6 +182,11 @@ def main():
     conf = [r for r in rows if r.get("confirmed")]
     det = sum(1 for r in conf if any(v.startswith("exit1") for v in r.get("detected_by", {}).values()))
     own = sum(1 for r in conf if r.get("detected_by", {}).get(r["property"], "").startswith("exit1"))
+    if BENIGN:
+        alarms = [r for r in conf if r.get("detected_by")]
+        print(f"\n{n} benign refactorings, {len(conf)} confirmed equivalent by their demo and the tests, "
+              f"{len(alarms)} raised an alarm or an analysis error: {[r['seed'] for r in alarms]}")
+        return 0
     print(f"\n{n} seeds, {len(conf)} confirmed, {det} detected (exit 1) by some check, {own} by the check of their own property")
     return 0
 
